@@ -15,13 +15,15 @@ ASM_MGR_ASSUMPTION = (
 def base_jobs(tier, roles, compress_quick=(), compress_thorough=()):
     """jobs of the synchronous C family (*_ctx_base.c): contracts of init/update/final/submit (vf/ctxbase.py) and,
     for C01, the compression functions against the standards (vf/compress.py).
-    quick: sha256 only (the other four files are proved in the thorough tier; same shape, different parameters)."""
+    quick: all five files except X_update of the four non-sha256 files (thorough); compression functions: see callers."""
     from . import compress, ctxbase
 
     def make(scratch):
         full = tier != "quick" or os.environ.get("VERIF_FULL", "") != ""
-        algs = None if full else ["sha256"]
-        js = [j for j in ctxbase.jobs(os.path.join(scratch, "ctxbase"), algs) if j.meta["role"] in roles]
+        # quick: every role for the sha256 file; for the other four files everything except X_update (the most expensive
+        # job, same shape) - so that X_final (padding, length field) and the submit protocol are proved for all five
+        js = [j for j in ctxbase.jobs(os.path.join(scratch, "ctxbase"), None) if j.meta["role"] in roles
+              and (full or j.meta["role"] != "update" or "/sha256/" in j.name)]
         keys = list(compress_thorough if full else compress_quick)
         if keys:
             js += compress.jobs(os.path.join(scratch, "compress"), keys)
@@ -30,7 +32,7 @@ def base_jobs(tier, roles, compress_quick=(), compress_thorough=()):
 
 
 BASE_NOTE = ("base family (*_mb/*_ctx_base.c, the binding chosen when no SIMD level is usable): synchronous, no lane manager; "
-             "contracts in contracts/ctxbase_prelude.h; quick tier proves the sha256 file, thorough all five")
+             "contracts in contracts/ctxbase_prelude.h; quick tier proves all five files except X_update of sha1/sha512/md5/sm3 (thorough)")
 
 
 def run_ctx(rep, tier, wanted, only=None, leaf_all=True, extra=None):
